@@ -587,6 +587,7 @@ func (a *jwtAuthenticator) calculateCacheKey(ep *endpoint.Endpoint, renderedURL,
 
 	for _, cert := range a.trustStore {
 		digest.Write(cert.Raw)
+		digest.Write([]byte{0})
 	}
 
 	return hex.EncodeToString(digest.Sum(nil))
